@@ -161,6 +161,15 @@ def keyed_builders():
     yield "AdditiveCondition(eqx.nn.Linear)", (lambda k: B.AdditiveCondition(lin(k, 2, 3), (3,), (2,))), (2,)
     yield "AdditiveCondition(eqx.nn.MLP)", (lambda k: B.AdditiveCondition(eqx.nn.MLP(2, 3, 4, 1, key=k), (3,), (2,))), (2,)
     yield "EmbedCondition(Linear)", (lambda k: B.EmbedCondition(B.AdditiveCondition(lin(k, 2, 3), (3,), (2,)), lin(jr.fold_in(k, 1), 4, 2), (4,))), (4,)
+    def tri(k, lower):
+        n = 0.5 * jr.normal(jr.fold_in(k, 1), (3, 3))
+        arr = n - jnp.diag(jnp.diag(n)) + jnp.diag(jnp.exp(0.3 * jr.normal(jr.fold_in(k, 2), (3,))))
+        return B.TriangularAffine(jr.normal(k, (3,)), arr, lower=lower)
+
+    # constructors whose ARRAY ARGUMENTS depend on the key: everything they compute from the arguments must end up in pytree leaves
+    yield "TriangularAffine(lower)", (lambda k: tri(k, True)), None
+    yield "TriangularAffine(upper)", (lambda k: tri(k, False)), None
+    yield "Affine(arrays)", (lambda k: B.Affine(jr.normal(k, (3,)), jnp.exp(0.3 * jr.normal(jr.fold_in(k, 1), (3,))))), None
     yield "Coupling", (lambda k: B.Coupling(k, transformer=B.Affine(), untransformed_dim=1, dim=3, cond_dim=2, nn_width=4, nn_depth=1)), (2,)
     yield "MaskedAutoregressive", (lambda k: B.MaskedAutoregressive(k, transformer=B.Affine(), dim=3, cond_dim=2, nn_width=4, nn_depth=1)), (2,)
     yield "Planar", (lambda k: B.Planar(k, dim=3, cond_dim=2, negative_slope=0.1, width_size=4, depth=1)), (2,)
